@@ -12,7 +12,7 @@ NAMES = ['SMA', 'WMA', 'SD', 'MAD', 'MIN', 'MAX', 'BB']
 def obligations(ops, outs):
     """generic over numbers: ops = [('new',..), ('feed',..)..]"""
     _, _, name, (n,), mult = ops[0]
-    fo = rfam.feeds(ops, outs)
+    fo = rfam.feeds_since_reset(ops, outs)
     stream = [v for v, _ in fo]
     obs = []
     for i, (_, o) in enumerate(fo):
@@ -50,13 +50,16 @@ def bb_obligations(lab, o, w, hist, mult, tol, i):
     return obs
 
 
-def r_family(mir, name, n, t, seed, timeout_s):
-    fam = 'R:C01 %s n=%d t=%d' % (name, n, t)
+def r_family(mir, name, n, t, seed, timeout_s, reset_prefix=0):
+    fam = 'R:C01 %s n=%d t=%d%s' % (name, n, t, ' after %d inputs and a reset' % reset_prefix if reset_prefix else '')
     ex = Executor(mir)
     xs = rcore.reals('x', t)
     mult = z3.Real('mult') if name == 'BB' else None
     ops = rfam.ops_stream(name, [n], mult, xs)
     assume = rcore.bounds(xs) + (rcore.bounds([mult], bound=F(1000)) if mult is not None else [])
+    if reset_prefix:
+        pre = rcore.reals('h', reset_prefix); assume += rcore.bounds(pre)
+        ops = rfam.with_reset_prefix(ops, pre)
     try:
         outs, _ = rfam.run_ops_r(ex, ops)
     except (Unsupported, PathDead) as e:
@@ -87,6 +90,7 @@ def main(chk):
     else:
         ns, tf, to = (1, 2, 3, 4, 5, 6), (lambda n: 3 * n + 3), 600
     jobs = [(r_family, (mir, name, n, tf(n), chk.seed, to), {}) for name in NAMES for n in ns]
+    jobs += [(r_family, (mir, name, n, tf(n), chk.seed, to), {'reset_prefix': n + 1}) for name in NAMES for n in ns[:3]]
     cnt, problems = rfam.validate_translator(mir, [(nm, [3], F(2) if nm == 'BB' else None) for nm in NAMES], chk.seed)
     chk.extra['traces_validated'] = cnt
     if problems:
